@@ -361,6 +361,11 @@ func (x *X) newMap(s *State, prefix string, u *types.Map, symbolic bool) MapV {
 	if symbolic {
 		m.Dom = x.sym(prefix+".dom", wrap("Bool"))
 		m.Val = x.mk(s, prefix+".val", et, wrap, true)
+		if sl, ok := m.Val.(Sl); ok {
+			// slice-valued map: every stored slice has a sane length
+			k := x.bound("k", ks)
+			s.assume(fmt.Sprintf("(forall ((%s %s)) (! (and (<= 0 (select %s %s)) (< (select %s %s) 281474976710656)) :pattern ((select %s %s))))", k, ks, sl.Len, k, sl.Len, k, sl.Len, k))
+		}
 	} else {
 		m.Dom = fmt.Sprintf("((as const %s) false)", wrap("Bool"))
 		m.Val = x.zero(s, et, wrap)
@@ -689,6 +694,9 @@ func loopOrdinals(fn *ssa.Function) map[*ssa.BasicBlock]int {
 		best := token.NoPos
 		for blk := range loopBlocks(b) {
 			for _, in := range blk.Instrs {
+				if _, isPhi := in.(*ssa.Phi); isPhi {
+					continue // a phi carries the position of the variable's declaration, which may precede the loop
+				}
 				if p := in.Pos(); p != token.NoPos && (best == token.NoPos || p < best) {
 					best = p
 				}
@@ -980,6 +988,12 @@ func (x *X) exec(s *State) {
 		cont := x.step(s, in)
 		if !cont {
 			return
+		}
+		if v, ok := in.(ssa.Value); ok {
+			// keep terms small: a value whose term has grown is given a name (definitional equation in the path condition)
+			if cur, has := fr.env[v]; has {
+				fr.env[v] = x.abbrev(s, cur, v.Name())
+			}
 		}
 	}
 	x.paths++
@@ -1883,4 +1897,71 @@ func (x *X) machineArith(s *State, e string, t types.Type) Val {
 	x.emit(s, "nopanic", "nopanic.overflow@"+x.site(s), nil, f, "machine integer overflow / wrap-around")
 	s.assume(f)
 	return Sc{T: e, Sort: "Int"}
+}
+
+const abbrevLimit = 96
+
+// abbrev replaces long scalar terms inside v by fresh constants defined equal to them.
+func (x *X) abbrev(s *State, v Val, hint string) Val {
+	switch y := v.(type) {
+	case Sc:
+		if len(y.T) <= abbrevLimit {
+			return y
+		}
+		so := x.sortOfTerm(y.T, "")
+		if so == "" {
+			return y
+		}
+		n := x.sym("v."+hint, so)
+		s.assume(sEq(n, y.T))
+		return Sc{T: n, Sort: y.Sort, Nil: y.Nil}
+	case St:
+		changed := false
+		r := St{map[string]Val{}}
+		for k, f := range y.F {
+			nf := x.abbrev(s, f, hint+"."+k)
+			r.F[k] = nf
+			if !sameVal(nf, f) {
+				changed = true
+			}
+		}
+		if !changed {
+			return y
+		}
+		return r
+	case Sl:
+		if y.ID != 0 {
+			return y
+		}
+		nl := x.abbrev(s, Sc{T: y.Len, Sort: "Int"}, hint+".len").(Sc)
+		var ne Val = y.Elem
+		if y.Elem != nil {
+			if _, isOpq := y.Elem.(Opq); !isOpq {
+				if _, isIA := y.Elem.(IfaceArr); !isIA {
+					ne = x.abbrev(s, y.Elem, hint+".e")
+				}
+			}
+		}
+		return Sl{0, nl.T, ne}
+	case Tuple:
+		r := make(Tuple, len(y))
+		for i, e := range y {
+			r[i] = x.abbrev(s, e, fmt.Sprintf("%s.%d", hint, i))
+		}
+		return r
+	case Er:
+		n := x.abbrev(s, Sc{T: y.Nil, Sort: "Bool"}, hint+".isnil").(Sc)
+		k := x.abbrev(s, Sc{T: y.Kind, Sort: "Int"}, hint+".kind").(Sc)
+		return Er{n.T, k.T}
+	}
+	return v
+}
+
+func sameVal(a, b Val) bool {
+	as, ok1 := a.(Sc)
+	bs, ok2 := b.(Sc)
+	if ok1 && ok2 {
+		return as.T == bs.T
+	}
+	return false
 }
